@@ -1,8 +1,8 @@
 package props
 
 import (
-	"encoding/json"
 	"bytes"
+	"encoding/json"
 	"fmt"
 	"os"
 	"strconv"
